@@ -228,7 +228,7 @@ func gen(seed uint64, tier string) {
 	r := vproto.NewRng(seed)
 	npairs := 500
 	if tier == "thorough" {
-		npairs = 9000
+		npairs = 18000
 	}
 	emit := func(a, b geom.Polygonal) {
 		ta, tb := vproto.GeomToks(a), vproto.GeomToks(b)
